@@ -225,6 +225,12 @@ pub fn fals_c18(rng: &mut Rng, thorough: bool, release: bool) -> Fals {
             _ => Shape::Quadruple(rng.range(1, 3), rng.range(1, 3), rng.range(1, 4), rng.range(1, 4)),
         });
     }
+    // a refused request (shapes reserved for max-pool indices / nested lists) is a panic of THAT call only:
+    // the valid requests that follow in the same process must be served as if it had never happened
+    for bad in [Shape::Quintuple(1, 1, 1, 1, 1), Shape::Nested(2)] {
+        let refused = catch_unwind(AssertUnwindSafe(|| Tensor::random(bad.clone(), 0.0, 1.0))).is_err();
+        f.check("random-tensor", refused, "Tensor::random accepted a shape it documents as unsupported", || format!("shape {:?}", bad));
+    }
     for s in shapes {
         let (lo, hi) = *rng.pick(&[(0.0f32, 1.0f32), (-1.0, 1.0), (2.0, 2.5), (-3.0, -3.0)]);
         let t = match catch_unwind(AssertUnwindSafe(|| Tensor::random(s.clone(), lo, hi))) {
